@@ -191,6 +191,41 @@ def tiny_tuplet_pickup(k):
     return {"id": None, "parts": [part], "groups": None}
 
 
+def tiny_long(k):
+    """a boundary score: a long movement. Either a pedal point - one note tied through 40 to 60 measures under a moving
+    voice - or some three hundred measures whose last ones move in triplets (tick positions beyond 2**19 that are not
+    exact in binary floating point)"""
+    if k.random() < 0.5:
+        nm, q = k.choice((40, 60)), 1
+        L = 4 * q
+        notes = []
+        for m in range(nm):
+            n = {"id": "p1n%d" % (len(notes) + 1), "kind": "note", "t": m * L, "e": (m + 1) * L, "voice": 2, "staff": 1, "sym": {"type": "whole", "dots": 0}, "m": m, "g": None, "step": "C", "alter": None, "octave": 2}
+            if m > 0:
+                n["tie_prev"] = notes[-1]["id"]
+                notes[-1]["tie_next"] = n["id"]
+            notes.append(n)
+        held = list(notes)
+        for m in range(0, nm, 7):
+            notes.append({"id": "p1n%d" % (len(notes) + 1), "kind": "note", "t": m * L + q, "e": m * L + 2 * q, "voice": 1, "staff": 1, "sym": {"type": "quarter", "dots": 0}, "m": m, "g": None, "step": "E", "alter": None, "octave": 4})
+        del held
+    else:
+        nm, q = k.choice((280, 300)), 12
+        L = 4 * q
+        notes = []
+        for m in list(range(0, 3)) + list(range(nm - 6, nm)):
+            for i in range(12):
+                notes.append({"id": "p1n%d" % (len(notes) + 1), "kind": "note", "t": m * L + 4 * i, "e": m * L + 4 * i + 4, "voice": 1, "staff": 1, "sym": {"type": "eighth", "dots": 0, "actual_notes": 3, "normal_notes": 2}, "m": m, "g": None, "step": "CDEFGAB"[i % 7], "alter": None, "octave": 4})
+    part = {
+        "id": "P1", "name": "P1", "abbr": None, "qdivs": [[0, q]], "nstaves": 1, "end": nm * L,
+        "measures": [{"s": m * L, "e": (m + 1) * L, "number": m + 1, "name": str(m + 1)} for m in range(nm)],
+        "timesigs": [{"t": 0, "beats": 4, "beat_type": 4}], "keysigs": [{"t": 0, "fifths": 0, "mode": "major"}],
+        "clefs": [{"t": 0, "staff": 1, "sign": "G", "line": 2, "oct": 0}],
+        "notes": notes, "slurs": [], "tuplets": [], "dirs": [], "tempos": [], "repeats": [], "endings": [], "nav": [], "fermatas": [],
+    }
+    return {"id": None, "parts": [part], "groups": None}
+
+
 def tiny_many(k):
     """a boundary score: as many parts (or voices of one part) as there are MIDI channels to give them"""
     n = k.choice((9, 10, 12, 15))
@@ -225,6 +260,8 @@ def generate(seed, tier, cfg):
         asc = tiny_many(k)
     elif k.random() < 0.05:
         asc = tiny_tuplet_pickup(k)
+    elif k.random() < 0.015:
+        asc = tiny_long(k)
     if k.random() < 0.08 and len(asc["parts"]) > 1:
         # nothing makes part ids unique: parts built by hand often all have the default id
         same = k.choice(("", "P", None))
@@ -236,6 +273,8 @@ def generate(seed, tier, cfg):
     o = st.ops
     policy = k.choice(POLICIES)
     min_ppq = k.choice((0, 0, 0, 24, 480, 960))
+    if len(asc["parts"][0]["measures"]) >= 200:
+        min_ppq = k.choice((480, 960))
     velocity = k.choice((64, 64, 1, 100, 127))
     path = "/simfs/out.mid"
     ops = [{"k": "save", "path": path, "route": o.choice(("path", "path", "filelike"))}]
